@@ -3878,7 +3878,7 @@ def witness_post(names):
         return {}
     return post
 
-for _pid, _ws in (("C05", ["W5"]), ("C13", ["W2", "W3"]), ("C17", ["W1"]), ("C18", ["W3"])):
+for _pid, _ws in (("C05", ["W5"]), ("C13", ["W2", "W3"]), ("C17", ["W1"]), ("C18", ["W3"]), ("C10", ["W6"])):
     REGISTRY[_pid]["post"] = witness_post(_ws)
 
 
